@@ -18,7 +18,7 @@ from collections import OrderedDict
 
 DIR = os.environ.get("VF_SUITE_TRACE_DIR")
 MAXLEN = int(os.environ.get("VF_SUITE_MAXLEN", "200"))
-CAPS = {"text": 60000, "fold": 30000, "parts": 60000, "join": 60000, "cdict": 120000, "lines": 400000}
+CAPS = {"values": 80000, "text": 60000, "fold": 30000, "parts": 60000, "join": 60000, "cdict": 120000, "lines": 400000}
 
 CURRENT = {"test": "<collection>"}
 FAMS = {}
@@ -128,10 +128,10 @@ def wrap_text_functions():
 def alpha_params(P):
     out = []
     for k, v in P.items():
-        if isinstance(v, (list, tuple)):
-            out.append({"k": L(k), "list": len(v) > 1, "vals": [L(x) for x in v]})
-        else:
-            out.append({"k": L(k), "list": False, "vals": [L(str(v))]})
+        vs = list(v) if isinstance(v, (list, tuple)) else [v]
+        if not all(type(x) is str for x in vs):
+            raise TypeError("typed parameter value: rendered by its own to_ical, outside this projection")
+        out.append({"k": L(k), "list": isinstance(v, (list, tuple)) and len(v) > 1, "vals": [L(x) for x in vs]})
     return out
 
 
@@ -339,6 +339,115 @@ def wrap_parser():
     Component.from_ical = classmethod(from_ical)
 
 
+# ----------------------------------------------------------------------------- value codecs
+def wrap_value_codecs():
+    import icalendar.prop as R
+    from datetime import date, datetime, time, timedelta
+
+    def a_dt(x):
+        if type(x) is not datetime and not isinstance(x, datetime):
+            raise TypeError
+        utc = 0
+        if x.tzinfo is not None:
+            if x.utcoffset() != timedelta(0) or R.tzid_from_dt(x) != "UTC":
+                raise TypeError("zoned")
+            utc = 1
+        return [x.year, x.month, x.day, x.hour, x.minute, x.second, utc]
+
+    def a_date(x):
+        if type(x) is not date:
+            raise TypeError
+        return [x.year, x.month, x.day]
+
+    def a_time(x):
+        if not isinstance(x, time) or x.tzinfo is not None:
+            raise TypeError
+        return [x.hour, x.minute, x.second]
+
+    def a_dur(td):
+        if not isinstance(td, timedelta) or td.microseconds:
+            raise TypeError
+        sign = 1
+        if td < timedelta(0):
+            sign, td = -1, -td
+        return [sign, td.days, td.seconds]
+
+    def a_off(td):
+        if not isinstance(td, timedelta) or td.microseconds:
+            raise TypeError
+        sign = 1
+        if td < timedelta(0):
+            sign, td = -1, -td
+        if td >= timedelta(hours=24):
+            raise TypeError("outside the UTC-OFFSET domain")
+        return [sign, td.days * 86400 + td.seconds]
+
+    def a_period(p):
+        a, b = p
+        return [a_dt(a), "d" if isinstance(b, timedelta) else "e", a_dur(b) if isinstance(b, timedelta) else a_dt(b)]
+
+    def a_int(n):
+        n = int(n)
+        return [1 if n >= 0 else -1, L(str(abs(n)))]
+
+    table = [
+        ("date", R.vDate, lambda o: a_date(o.dt), a_date),
+        ("date-time", R.vDatetime, lambda o: a_dt(o.dt), a_dt),
+        ("time", R.vTime, lambda o: a_time(o.dt), a_time),
+        ("duration", R.vDuration, lambda o: a_dur(o.td), a_dur),
+        ("utc-offset", R.vUTCOffset, lambda o: a_off(o.td), a_off),
+        ("period", R.vPeriod, lambda o: a_period((o.start, o.duration if o.by_duration else o.end)), a_period),
+        ("integer", R.vInt, a_int, a_int),
+        ("boolean", R.vBoolean, lambda o: int(bool(o)), lambda x: int(bool(x))),
+        ("float", R.vFloat, lambda o: float(o).hex(), lambda x: float(x).hex()),
+        ("geo", R.vGeo, lambda o: [float(o.latitude).hex(), float(o.longitude).hex()], lambda x: [float(x[0]).hex(), float(x[1]).hex()]),
+    ]
+
+    def install(typ, cls, a_self, a_native):
+        to0 = cls.__dict__.get("to_ical")
+        if to0 is not None:
+            @guarded
+            def log_enc(self, out):
+                t = out.decode("utf-8") if isinstance(out, bytes) else out
+                if len(t) > MAXLEN:
+                    return
+                fam("values").add({"k": "senc", "type": typ, "v": a_self(self), "text": L(t)})
+
+            def to_ical(self, *a, **k):
+                out = to0(self, *a, **k)
+                log_enc(self, out)
+                return out
+            cls.to_ical = to_ical
+        raw = cls.__dict__.get("from_ical")
+        if raw is None:
+            return
+        fn = raw.__func__ if isinstance(raw, (staticmethod, classmethod)) else raw
+
+        @guarded
+        def log_dec(text, res):
+            if not isinstance(text, str) or len(text) > MAXLEN:
+                return
+            fam("values").add({"k": "sdec", "type": typ, "text": L(text), "back": a_native(res)})
+
+        if isinstance(raw, staticmethod):
+            def from_ical(ical, *a, **k):
+                res = fn(ical, *a, **k)
+                if not a and not k:
+                    log_dec(ical, res)
+                return res
+            cls.from_ical = staticmethod(from_ical)
+        elif isinstance(raw, classmethod):
+            def from_ical_c(c, ical, *a, **k):
+                res = fn(c, ical, *a, **k)
+                if not a and not k:
+                    log_dec(ical, res)
+                return res
+            cls.from_ical = classmethod(from_ical_c)
+
+    for row in table:
+        install(*row)
+
+
 # ----------------------------------------------------------------------------- pytest hooks
 def pytest_configure(config):
     if not DIR:
@@ -350,6 +459,7 @@ def pytest_configure(config):
     wrap_contentline()
     wrap_caselessdict()
     wrap_parser()
+    wrap_value_codecs()
 
 
 def pytest_runtest_setup(item):
